@@ -208,14 +208,16 @@ func (u *SPDX23) packageToNode(p *spdx23.Package) *sbom.Node {
 	// return the supplier and originator emails as a separate field. Perhaps
 	// we should upstream a fix for that.
 	if p.PackageSupplier != nil && p.PackageSupplier.Supplier != protospdx.NOASSERTION {
-		n.Suppliers = []*sbom.Person{{Name: p.PackageSupplier.Supplier}}
+		_, name, email := protospdx.ParseActorString(p.PackageSupplier.Supplier)
+		n.Suppliers = []*sbom.Person{{Name: name, Email: email}}
 		if p.PackageSupplier.SupplierType == protospdx.Organization {
 			n.Suppliers[0].IsOrg = true
 		}
 	}
 
 	if p.PackageOriginator != nil && p.PackageOriginator.Originator != protospdx.NOASSERTION && p.PackageOriginator.Originator != "" {
-		n.Originators = []*sbom.Person{{Name: p.PackageOriginator.Originator}}
+		_, name, email := protospdx.ParseActorString(p.PackageOriginator.Originator)
+		n.Originators = []*sbom.Person{{Name: name, Email: email}}
 		if p.PackageOriginator.OriginatorType == protospdx.Organization {
 			n.Originators[0].IsOrg = true
 		}
